@@ -536,6 +536,43 @@ fn cli_block(ctx: &Ctx) {
             }
         }
     }
+    // authentic files whose plaintext CONTENT is special (zero / 0xff runs aligned with the chunk size):
+    // accepted, and the output - at -o and on stdout - is exactly the plaintext
+    {
+        let fams = crate::util::content_families(&mut rng);
+        let seeds: Vec<u64> = fams.iter().map(|_| rng.next()).collect();
+        let wdp = &wd;
+        par_for(fams.len() * 2, crate::util::ncpu(), |j| {
+            let (what, pt) = &fams[j / 2];
+            let keymode = j % 2 == 0;
+            let mut r = Rng::new(seeds[j / 2]);
+            let chunking = refspec::natural_chunking(pt.len(), 65536);
+            let file = if keymode { mk_key_file(&alice.sk, &bob.pk, pt, &chunking, &mut r).bytes } else { refspec::encode_pass_file(pw.as_bytes(), &r.arr32(), pt, &chunking) };
+            let inp = wdp.write(&format!("fam{}.ktl", j), &file);
+            let outp = wdp.file(&format!("fam{}.out", j));
+            for to_file in [true, false] {
+                let mut args: Vec<&str> = if keymode { vec!["decrypt", inp.to_str().unwrap(), "-t", "bob", "-k", "kr.txt", "--env-pass"] } else { vec!["password", "decrypt", inp.to_str().unwrap(), "--env-pass"] };
+                if to_file {
+                    args.push("-o");
+                    args.push(outp.to_str().unwrap());
+                }
+                let o = Cmd::new(&wdp.path, &args).pass(if keymode { "bpw" } else { &pw }).run();
+                ctx.eval();
+                let got = if to_file { std::fs::read(&outp).unwrap_or_default() } else { o.stdout.clone() };
+                if o.exit == Exit::Timeout {
+                    ctx.inconclusive("C03 cli: timeout");
+                } else if o.exit == Exit::Code(0) && &got == pt {
+                    ctx.seen("cli: authentic file with special plaintext content gives exactly the plaintext");
+                    ctx.distinct(&format!("cli|content|{}|{}|{}", what, keymode, to_file));
+                } else {
+                    let first_diff = got.iter().zip(pt.iter()).position(|(a, b)| a != b);
+                    ctx.violation(&format!("C03:cli:{}:authentic-file-does-not-give-exactly-its-plaintext:special-content", if keymode { "key" } else { "password" }),
+                        json!({"content": what, "sink": if to_file { "-o FILE" } else { "stdout" }, "exit": o.exit.describe(), "stderr": o.stderr_s(), "plaintext_len": pt.len(), "output_len": got.len(), "first_difference_at": first_diff}));
+                }
+                let _ = std::fs::remove_file(&outp);
+            }
+        });
+    }
     let auths = [kf.clone(), pf.clone(), big_pf.clone()];
     let wdp = &wd;
     par_for(cases.len(), crate::util::ncpu(), |i| {
@@ -595,6 +632,7 @@ pub fn run(ctx: &Ctx) {
     if !crate::lib_only() {
         cli_block(ctx);
     }
+    ctx.require("cli: authentic file with special plaintext content", 30);
     ctx.require("cli key extend: rejected", 3);
     ctx.require("cli password after an interrupted earlier run", 1);
     ctx.require("cli key after an interrupted earlier run", 1);
